@@ -159,7 +159,12 @@ type Case struct {
 	Pages   []Page            `json:"pages"`
 	Comps   map[string][]Item `json:"comps,omitempty"`
 	Layouts map[string]Layout `json:"layouts,omitempty"`
-	Steps   []Step            `json:"steps"`
+	// Twins lists components X that have a twin file components/TX.vuego: a DIFFERENT file whose
+	// template body is byte-identical to X's (it only has front matter of its own). Include items name
+	// it as "TX". Its marked elements are elements of another component: they carry the same data-m
+	// text as X's but are emitted independently of them (once per render each).
+	Twins []string `json:"twins,omitempty"`
+	Steps []Step   `json:"steps"`
 }
 
 // entry points: file (load, file, vue), fragment (frag), string (string, byte, reader).
@@ -171,6 +176,14 @@ func stringy(e string) bool     { return e == "string" || e == "byte" || e == "r
 // layoutOrder bounds chains by construction: Next must come later in this list.
 var layoutOrder = []string{"l1", "l2", "l3", "base"}
 var compOrder = []string{"A", "B", "C", "D", "E"}
+
+// twinOf resolves an include target: for "TX" with X in Twins it returns X and true.
+func twinOf(c *Case, name string) (string, bool) {
+	if strings.HasPrefix(name, "T") && indexOf(c.Twins, name[1:]) >= 0 {
+		return name[1:], true
+	}
+	return name, false
+}
 
 func indexOf(l []string, s string) int {
 	for i, x := range l {
@@ -351,6 +364,9 @@ func files(c Case) map[string]string {
 		fmt.Fprintf(&sb, "<i data-m=\"c%s\">c</i>\n", name)
 		src(items, &sb)
 		out["components/"+name+".vuego"] = sb.String()
+		if indexOf(c.Twins, name) >= 0 {
+			out["components/T"+name+".vuego"] = "---\ntwinof: " + name + "\n---\n" + sb.String()
+		}
 	}
 	for name, l := range c.Layouts {
 		var sb strings.Builder
@@ -454,8 +470,9 @@ func validate(c Case) error {
 					return err
 				}
 			case "inc":
-				j := indexOf(compOrder, it.Comp)
-				if _, ok := c.Comps[it.Comp]; !ok || j < 0 || j <= comp || head {
+				base, _ := twinOf(&c, it.Comp)
+				j := indexOf(compOrder, base)
+				if _, ok := c.Comps[base]; !ok || j < 0 || j <= comp || head {
 					return fmt.Errorf("bad include of %q in %s", it.Comp, file)
 				}
 				if len(it.Named) > 0 && len(c.Layouts) > 0 {
@@ -516,6 +533,11 @@ func validate(c Case) error {
 			if err := walk(items, name, indexOf(compOrder, name), false, false); err != nil {
 				return err
 			}
+		}
+	}
+	for _, x := range c.Twins {
+		if _, ok := c.Comps[x]; !ok {
+			return fmt.Errorf("twin of unknown component %q", x)
 		}
 	}
 	if len(c.Comps) > len(compOrder) {
@@ -579,26 +601,31 @@ func validate(c Case) error {
 type scope struct {
 	def, named []Item
 	parent     *scope // the scope in effect where the include tag is written
+	file       string // the file (see link.file) in which the include tag is written
 }
 
 type link struct {
-	c       *Case
-	scope   *scope
-	seen    map[int]bool
-	reached map[int]int // marker -> number of times its position was reached in this render
+	c     *Case
+	scope *scope
+	// file distinguishes the copies of a marked element that twin component files contain: "" for
+	// every ordinary file (markers are unique there), "TX" while walking items written in twin TX
+	file    string
+	seen    map[string]bool // file#marker
+	reached map[int]int     // marker -> number of times its position was reached in this render
 	loop    []int
 	// what the layout chain hands on from the page: contents of its #ph / v-slot:pf templates
 	ph, pf []Item
 	// bookkeeping for the regions of known findings
-	inherited   int          // > 0 while walking handed-on page content
-	inhReached  map[int]bool // marked elements of handed-on content reached in this link
-	passedFalse map[int]bool // own-v-if members that were passed with a false condition before their first reach
-	lateIf      map[int]bool // ... and were reached afterwards
+	inherited   int             // > 0 while walking handed-on page content
+	inhReached  map[int]bool    // marked elements of handed-on content reached in this link
+	passedFalse map[string]bool // own-v-if members that were passed with a false condition before their first reach
+	lateIf      map[int]bool    // ... and were reached afterwards
+	twins       map[string]int  // component X -> bit 1: X included, bit 2: its twin TX included (this link)
 	sb          strings.Builder
 }
 
 func newLink(c *Case) *link {
-	return &link{c: c, seen: map[int]bool{}, reached: map[int]int{}, inhReached: map[int]bool{}, passedFalse: map[int]bool{}, lateIf: map[int]bool{}}
+	return &link{c: c, seen: map[string]bool{}, reached: map[int]int{}, inhReached: map[int]bool{}, passedFalse: map[string]bool{}, lateIf: map[int]bool{}, twins: map[string]int{}}
 }
 
 func (l *link) cond(it Item) bool {
@@ -616,11 +643,12 @@ func (l *link) walk(items []Item) {
 			if it.Self {
 				inst = it.N // every loop iteration instantiates the marked element itself
 			}
+			key := fmt.Sprintf("%s#%d", l.file, it.M)
 			if it.Ch == "if" || it.Ch == "else" || it.Ch == "elseif" {
 				cond := l.cond(it)
 				if it.Ch == "if" && !cond {
-					if !l.seen[it.M] {
-						l.passedFalse[it.M] = true
+					if !l.seen[key] {
+						l.passedFalse[key] = true
 					}
 					continue // not instantiated here
 				}
@@ -634,13 +662,13 @@ func (l *link) walk(items []Item) {
 				if l.inherited > 0 {
 					l.inhReached[it.M] = true
 				}
-				if l.seen[it.M] {
+				if l.seen[key] {
 					continue
 				}
-				if l.passedFalse[it.M] {
+				if l.passedFalse[key] {
 					l.lateIf[it.M] = true
 				}
-				l.seen[it.M] = true
+				l.seen[key] = true
 				fmt.Fprintf(&l.sb, "o%d(", it.M)
 				if it.Self {
 					l.loop = append(l.loop, k+1)
@@ -670,23 +698,31 @@ func (l *link) walk(items []Item) {
 			l.walk(it.Kids)
 			l.sb.WriteString(")")
 		case "inc":
-			fmt.Fprintf(&l.sb, "c%s()", it.Comp)
-			old := l.scope
-			l.scope = &scope{def: it.Kids, named: it.Named, parent: old}
-			l.walk(l.c.Comps[it.Comp])
-			l.scope = old
+			base, twin := twinOf(l.c, it.Comp)
+			fmt.Fprintf(&l.sb, "c%s()", base) // a twin's body, head marker included, is X's text
+			old, oldFile := l.scope, l.file
+			l.scope = &scope{def: it.Kids, named: it.Named, parent: old, file: oldFile}
+			l.file = ""
+			if twin {
+				l.file = it.Comp
+				l.twins[base] |= 2
+			} else {
+				l.twins[base] |= 1
+			}
+			l.walk(l.c.Comps[base])
+			l.scope, l.file = old, oldFile
 		case "pslot":
 			content := l.ph
 			if it.Nm {
 				content = l.pf
 			}
 			if len(content) > 0 {
-				old := l.scope
-				l.scope = nil
+				old, oldFile := l.scope, l.file
+				l.scope, l.file = nil, "" // the content is written in the page
 				l.inherited++
 				l.walk(content)
 				l.inherited--
-				l.scope = old
+				l.scope, l.file = old, oldFile
 			} else {
 				l.walk(it.Kids)
 			}
@@ -700,10 +736,10 @@ func (l *link) walk(items []Item) {
 			}
 			if len(content) > 0 {
 				// supplied content belongs to the includer
-				old := l.scope
-				l.scope = old.parent
+				old, oldFile := l.scope, l.file
+				l.scope, l.file = old.parent, old.file
 				l.walk(content)
-				l.scope = old
+				l.scope, l.file = old, oldFile
 			} else {
 				l.walk(it.Kids) // fallback content
 			}
@@ -859,6 +895,9 @@ func where(c *Case, m int) string {
 	}
 	for _, n := range compOrder {
 		if it := find(c.Comps[n]); it != nil {
+			if indexOf(c.Twins, n) >= 0 {
+				return desc(it, "components/"+n+".vuego and, separately, in its twin file components/T"+n+".vuego")
+			}
 			return desc(it, "components/"+n+".vuego")
 		}
 	}
@@ -958,6 +997,17 @@ func clip(s string) string {
 
 // ---------------------------------------------------------------------------------------------
 // classification
+
+func countOnce(items []Item) int {
+	n := 0
+	for _, it := range items {
+		if it.K == "once" {
+			n++
+		}
+		n += countOnce(it.Kids) + countOnce(it.Named)
+	}
+	return n
+}
 
 func classify(c Case) (bool, []string) {
 	set := map[string]bool{}
@@ -1135,6 +1185,14 @@ func classify(c Case) (bool, []string) {
 			if len(l.lateIf) > 0 {
 				set["own-v-if false before first reach"] = true
 			}
+			for x, bits := range l.twins {
+				if bits == 3 {
+					set["twin-files-both-included-in-one-render"] = true
+					if countOnce(c.Comps[x]) > 0 {
+						set["twin-files-with-once-both-included-in-one-render"] = true
+					}
+				}
+			}
 			for m := range l.passedFalse {
 				_ = m
 				set["own-v-if passed with false condition"] = true
@@ -1281,7 +1339,7 @@ func universe(fill []string, p uparams) Case {
 	for k := 0; k < p.kA; k++ {
 		P = append(P, inc("A"))
 	}
-	P = append(P, inc("B"))
+	P = append(P, inc("B"), inc("TA")) // the twin file of A, after A itself
 	if u.fill["s2"] {
 		u.kinds++
 		P = append(P, Item{K: "once", M: u.id(), Tag: leafTags[u.kinds%len(leafTags)], Self: true, N: p.nA, Sp: (u.sp + u.kinds - 1) % len(spellings)})
@@ -1304,7 +1362,8 @@ func universe(fill []string, p uparams) Case {
 	P = append(P, u.slot("s5", all)...)
 	var Q []Item
 	Q = append(Q, u.slot("q0", all)...)
-	Q = append(Q, Item{K: "for", M: u.id(), N: p.nB, Kids: []Item{inc("B")}}, inc("A"))
+	// page 1 meets the twin first
+	Q = append(Q, Item{K: "for", M: u.id(), N: p.nB, Kids: []Item{inc("B")}}, inc("TA"), inc("A"))
 	Q = append(Q, u.slot("q1", all)...)
 	var A []Item
 	A = append(A, u.slot("a0", all)...)
@@ -1320,6 +1379,7 @@ func universe(fill []string, p uparams) Case {
 	c := Case{
 		Pages:   []Page{{Items: P}, {Items: Q}},
 		Comps:   map[string][]Item{"A": A, "B": B, "C": C, "D": D},
+		Twins:   []string{"A"},
 		Layouts: map[string]Layout{},
 	}
 	mkL1 := func(next string) Layout {
@@ -1397,6 +1457,7 @@ type gen struct {
 	next   int
 	budget int // marked elements still to place
 	comps  []string
+	twins  []string // components that have a twin file
 	// inContent > 0 while drawing supplied slot content or fallback content (no <slot>, no x==k there)
 	inContent int
 	namedOK   bool // named slot content only in sites without layouts
@@ -1415,6 +1476,9 @@ func (g *gen) items(label string, comp, depth int, inLoop bool, max int) []Item 
 		for j := range g.comps {
 			if j > comp {
 				allowed = append(allowed, g.comps[j])
+				if indexOf(g.twins, g.comps[j]) >= 0 {
+					allowed = append(allowed, "T"+g.comps[j])
+				}
 			}
 		}
 		kinds := []string{"once", "once", "for", "div", "if"}
@@ -1528,6 +1592,12 @@ func genCase() func(t *rapid.T) Case {
 		nComps := rapid.IntRange(0, 4).Draw(t, "comps")
 		g.comps = compOrder[:nComps]
 		c := Case{Comps: map[string][]Item{}, Layouts: map[string]Layout{}}
+		for _, n := range g.comps {
+			if rapid.IntRange(0, 2).Draw(t, "twin"+n) == 0 {
+				g.twins = append(g.twins, n)
+			}
+		}
+		c.Twins = g.twins
 		nLay := rapid.SampledFrom([]int{0, 0, 1, 2, 3}).Draw(t, "layouts")
 		hasBase := rapid.IntRange(0, 3).Draw(t, "base") == 0
 		g.namedOK = nLay == 0 && !hasBase
@@ -1678,12 +1748,15 @@ func TestProp(t *testing.T) {
 enum:
 	for _, p := range params {
 		for j, fill := range subsets(universeSlots(p), maxFill) {
-			// one marked element: all 7 entry histories; two: 3 of them; three: 2 - rotating, so that
+			// one marked element: all 7 entry histories; two: 2 of them (thorough 3); three: 2 - rotating, so that
 			// every entry meets every kind of filling
 			ks := []int{0, 1, 2, 3, 4, 5, 6}
 			switch len(fill) {
 			case 2:
-				ks = []int{j % 7, (j + 3) % 7, (j + 5) % 7}
+				ks = []int{j % 7, (j + 3) % 7}
+				if run.Thorough() {
+					ks = append(ks, (j+5)%7)
+				}
 			case 3:
 				ks = []int{j % 7, (j + 4) % 7}
 			}
@@ -1703,7 +1776,7 @@ enum:
 		}
 	}
 	if ok {
-		rec.Exhaustive(fmt.Sprintf("universe site: every choice of 1..%d of its slots x %d parameter sets x 7/3/2 entry histories for 1/2/3 filled slots (%d cases)", maxFill, len(params), n))
+		rec.Exhaustive(fmt.Sprintf("universe site: every choice of 1..%d of its slots x %d parameter sets x 7/2(thorough 3)/2 entry histories for 1/2/3 filled slots (%d cases)", maxFill, len(params), n))
 	}
 
 	run.Rapid(t, rec, "random", genCase(), classify, check)
